@@ -41,6 +41,7 @@ static void xml_show_incomplete(TestReporter *reporter, const char *filename,
 static const char *file_prefix;
 
 static int default_printer(xmlDocPtr doc);
+static xmlAttrPtr xmlFormatProp(xmlNodePtr node, const xmlChar* name, const char *format, ...);
 
 void set_libxml_reporter_printer(TestReporter *reporter, XmlPrinter *printer)
 {
@@ -303,6 +304,11 @@ static void xml_show_skip(TestReporter *reporter, const char *file, int line) {
     (void)line;
     (void)reporter;
 
+    if (child_output_writer == NULL) {
+        /* not inside a test, nothing to mark as skipped */
+        return;
+    }
+
     xmlTextWriterStartElement(child_output_writer, XMLSTRING("skipped"));
     xmlTextWriterEndElement(child_output_writer); // </skipped>
     xmlTextWriterFlush(child_output_writer);
@@ -354,6 +360,22 @@ static xmlChar* xml_secure_vprint(const char *format, va_list ap)
 static void xml_show_fail(TestReporter *reporter, const char *file, int line,
                           const char *message, va_list arguments) {
     (void)reporter;
+
+    if (child_output_writer == NULL) {
+        /* Not inside a test: a check made by a suite's setup or teardown in the reporting
+           process itself. There is no test to attach it to, so it becomes a child of the suite */
+        struct xml_suite_context *ctx = &context_stack[context_stack_p-1];
+        xmlNodePtr failNode = xmlNewChild(ctx->suite, NULL, XMLSTRING("failure"), NULL);
+        xmlChar *xml_msg = xml_secure_vprint(message, arguments);
+        xmlNewProp(failNode, XMLSTRING("message"), xml_msg);
+        xmlFree(xml_msg);
+        xmlNodePtr locNode = xmlNewChild(failNode, NULL, XMLSTRING("location"), NULL);
+        xmlChar *xml_filename = xmlEscapePropValue(file);
+        xmlNewProp(locNode, XMLSTRING("file"), xml_filename);
+        xmlFree(xml_filename);
+        xmlFormatProp(locNode, XMLSTRING("line"), "%d", line);
+        return;
+    }
 
     xmlTextWriterStartElement(child_output_writer, XMLSTRING("failure"));
 
@@ -462,6 +484,7 @@ static void xml_reporter_finish_test(TestReporter *reporter, const char *filenam
 
     reporter_finish_test(reporter, filename, line, message);
     xmlFreeTextWriter(child_output_writer);
+    child_output_writer = NULL;
 
     xmlFormatProp(ctx->curTest, XMLSTRING("time"),
                   "%.5f", (double)reporter->duration/(double)1000);
